@@ -710,6 +710,9 @@ class Output(object):
 
         if self._address_obj:
             self.script_type = self._address_obj.script_type if script_type is None else script_type
+            if self.script_type in ['p2sh_p2wpkh', 'p2sh_p2wsh']:
+                # The address of a segwit script embedded in P2SH is paid with a plain P2SH locking script
+                self.script_type = 'p2sh'
             # if not script_type:
             #     script_type = script_type_default(address.witness_type, address.multisig, True)
             self.public_hash = self._address_obj.hash_bytes
